@@ -155,13 +155,14 @@ def parse_coq(s):
 
 
 # ------------------------------------------------------------------ implementation side
-def mk_model(g):
+def mk_model(g, update_window=None):
     from sidemantic import Dimension, Metric, Model
-    from sidemantic.core.pre_aggregation import PreAggregation
+    from sidemantic.core.pre_aggregation import PreAggregation, RefreshKey
+    rk = dict(refresh_key=RefreshKey(every="1 hour", incremental=True, update_window=update_window)) if update_window else {}
     return Model(name="ev", table="ev", primary_key="id",
                  dimensions=[Dimension(name="d", type="time", granularity="day", sql="d"), Dimension(name="cat", type="numeric", sql="cat")],
                  metrics=[Metric(name="total", agg="sum", sql="v"), Metric(name="n", agg="count")],
-                 pre_aggregations=[PreAggregation(name="r", measures=["total", "n"], dimensions=["cat"], time_dimension="d", granularity=g)])
+                 pre_aggregations=[PreAggregation(name="r", measures=["total", "n"], dimensions=["cat"], time_dimension="d", granularity=g, **rk)])
 
 
 YAML = """models:
@@ -175,7 +176,7 @@ YAML = """models:
   - {name: total, agg: sum, sql: v}
   - {name: n, agg: count}
   pre_aggregations:
-  - {name: r, measures: [total, n], dimensions: [cat], time_dimension: d, granularity: %s}
+  - {name: r, measures: [total, n], dimensions: [cat], time_dimension: d, granularity: %s%s}
 """
 
 
@@ -213,7 +214,7 @@ def run_impl(h, workdir):
     """Execute the history on the real code.  Returns per refresh step: (rollup rows, expectation, fresh full rows, op)."""
     import duckdb
     g = h["gran"]
-    model = mk_model(g)
+    model = mk_model(g, h.get("update_window"))     # a declared refresh schedule (as Cube imports carry): the guarantees of each mode are the same with it
     pre = model.pre_aggregations[0]
     dbfile = os.path.join(workdir, "data.db")
     for f in (dbfile, dbfile + ".wal"):
@@ -226,7 +227,7 @@ def run_impl(h, workdir):
         md = os.path.join(workdir, "models")
         os.makedirs(md, exist_ok=True)
         with open(os.path.join(md, "m.yml"), "w") as f:
-            f.write(YAML % g)
+            f.write(YAML % (g, ", refresh_key: {every: 1 hour, incremental: true, update_window: %s}" % h["update_window"] if h.get("update_window") else ""))
     steps = []
     month_days = []
     h["_month_days"] = month_days
@@ -420,6 +421,9 @@ def run(c):
         n_hist = 40 if c.tier == "quick" else 400
         max_len = 8 if c.tier == "quick" else 14
         hs = corpus_histories() + [gen_history(c.rng, c.rng.randint(2, max_len), cli=(i % 4 == 3)) for i in range(n_hist)]
+        for i, h in enumerate(hs):
+            if i % 3 == 1:
+                h["update_window"] = ["7 day", "1 month", "2 day"][(i // 3) % 3]
         model_ok = lib.coq_make(["Model/Refresh.vo", "Base/Calendar.vo"])[0]
         all_steps = [run_impl(h, workdir) for h in hs]          # the implementation first: calendar lookbacks get their day counts from the run
         traces = None
